@@ -223,17 +223,34 @@ func runC08(c *Ctx) {
 		info := fr.Info()
 		var bad []string
 		seen := map[string]bool{}
-		ast.Inspect(fr.Decl.Body, func(n ast.Node) bool {
-			sel, ok := n.(*ast.SelectorExpr)
-			if !ok || namedName(info.TypeOf(sel.X)) != "module" {
+		// the closure's work may be split into methods of the module (computeDigest, computeB5Digest …): what those
+		// read is read by the closure
+		scanned := map[*ast.BlockStmt]bool{}
+		var scanBody func(body *ast.BlockStmt, depth int)
+		scanBody = func(body *ast.BlockStmt, depth int) {
+			if body == nil || scanned[body] {
+				return
+			}
+			scanned[body] = true
+			ast.Inspect(body, func(n ast.Node) bool {
+				sel, ok := n.(*ast.SelectorExpr)
+				if !ok || namedName(info.TypeOf(sel.X)) != "module" {
+					return true
+				}
+				if fn, isFn := info.Uses[sel.Sel].(*types.Func); isFn && depth > 0 && !token.IsExported(fn.Name()) {
+					if h := p.DeclOf(fn); h != nil && h.Decl.Body != nil && h.Pkg == fr.Pkg {
+						scanBody(h.Decl.Body, depth-1)
+						return true
+					}
+				}
+				seen[sel.Sel.Name] = true
+				if why, ok := denied[sel.Sel.Name]; ok {
+					bad = append(bad, sel.Sel.Name+" ("+why+")")
+				}
 				return true
-			}
-			seen[sel.Sel.Name] = true
-			if why, ok := denied[sel.Sel.Name]; ok {
-				bad = append(bad, sel.Sel.Name+" ("+why+")")
-			}
-			return true
-		})
+			})
+		}
+		scanBody(fr.Decl.Body, 2)
 		c.Ob("DIGEST-INPUTS", "newGetDigestFuncForModuleAndDigestType", fr.Decl.Pos(), len(bad) == 0 && len(seen) >= 4, true,
 			"module members read by the digest closure: %v; denied ones: %v (the digest must be the same whether or not the module is a target, whatever it is called, whichever set it is in)", sortedBoolKeys(seen), bad)
 	}
@@ -328,7 +345,57 @@ func runC08(c *Ctx) {
 	for _, pk := range []*packages.Package{pkC, pkM} {
 		info := pk.TypesInfo
 		a, b := pkgVarLiteral(pk, "digestTypeToString"), pkgVarLiteral(pk, "stringToDigestType")
-		if a == nil || b == nil {
+		// the parse table may be computed as the inverse of the naming table (`invert(digestTypeToString)`): then it is
+		// the inverse by construction, provided the helper is an inversion and the names are distinct
+		computedInverse := false
+		if a != nil && b == nil {
+			for _, f := range pk.Syntax {
+				ast.Inspect(f, func(n ast.Node) bool {
+					vs, ok := n.(*ast.ValueSpec)
+					if !ok {
+						return true
+					}
+					for i, nm := range vs.Names {
+						if nm.Name != "stringToDigestType" || i >= len(vs.Values) {
+							continue
+						}
+						call, ok := ast.Unparen(vs.Values[i]).(*ast.CallExpr)
+						if !ok || len(call.Args) != 1 {
+							continue
+						}
+						if id, ok := call.Args[0].(*ast.Ident); !ok || id.Name != "digestTypeToString" {
+							continue
+						}
+						fn := Callee(info, call)
+						if fn == nil {
+							continue
+						}
+						h := p.DeclOf(fn)
+						if h == nil || h.Decl.Body == nil {
+							continue
+						}
+						// for k, v := range param { out[v] = k }
+						ast.Inspect(h.Decl.Body, func(m ast.Node) bool {
+							rs, ok := m.(*ast.RangeStmt)
+							if !ok || rs.Key == nil || rs.Value == nil {
+								return true
+							}
+							ko, vo := identObj(h.Info(), rs.Key), identObj(h.Info(), rs.Value)
+							for _, st := range rs.Body.List {
+								if as, ok := st.(*ast.AssignStmt); ok && len(as.Lhs) == 1 && len(as.Rhs) == 1 && len(rs.Body.List) == 1 {
+									if ix, ok := as.Lhs[0].(*ast.IndexExpr); ok && identObj(h.Info(), ix.Index) == vo && identObj(h.Info(), as.Rhs[0]) == ko && ko != nil && vo != nil {
+										computedInverse = true
+									}
+								}
+							}
+							return true
+						})
+					}
+					return true
+				})
+			}
+		}
+		if a == nil || (b == nil && !computedInverse) {
 			c.Fail("TEXT-AGREEMENT", relPkg(pk.PkgPath)+"/digest-type-tables", token.NoPos, "tables not found")
 			continue
 		}
@@ -340,11 +407,17 @@ func runC08(c *Ctx) {
 				t2s[tv.Value.ExactString()] = s
 			}
 		}
-		for _, el := range b.Elts {
-			kv := el.(*ast.KeyValueExpr)
-			if tv, ok := info.Types[kv.Value]; ok && tv.Value != nil {
-				s, _ := stringLit(info, kv.Key)
-				s2t[s] = tv.Value.ExactString()
+		if computedInverse {
+			for t, s := range t2s {
+				s2t[s] = t // equal sizes below mean the names are distinct
+			}
+		} else {
+			for _, el := range b.Elts {
+				kv := el.(*ast.KeyValueExpr)
+				if tv, ok := info.Types[kv.Value]; ok && tv.Value != nil {
+					s, _ := stringLit(info, kv.Key)
+					s2t[s] = tv.Value.ExactString()
+				}
 			}
 		}
 		bad := ""
@@ -512,66 +585,70 @@ func c08Text(c *Ctx, pk *packages.Package) {
 		"writer ends every node with a newline (%v); parser requires a trailing newline (%v), strips exactly one (%v) and splits on it (%v)", nl, req, strip, split)
 }
 
-// ruleDepDigestsSorted: the dependency digest strings, which arrive in the caller's listing order, are sorted before hashing.
+// ruleDepDigestsSorted: the dependency digest strings, which arrive in the caller's listing order, are sorted before
+// hashing. Decided on SSA, wherever the step lives (the function itself or a package function it calls) and however the
+// strings are collected (MapError, a loop): the list handed to strings.Join contains a []string that derives from a
+// slice parameter and was sorted by a call that dominates the Join.
 func ruleDepDigestsSorted(c *Ctx, rule string) {
 	p := c.P
-	if fr := p.Func("private/bufpkg/bufmodule", "getB5DigestForBucketAndDepDigests"); fr != nil {
-		info := fr.Info()
-		g := p.CFGOf(fr.Decl.Body, info)
-		var join ast.Node
-		ast.Inspect(fr.Decl.Body, func(n ast.Node) bool {
-			if call, ok := n.(*ast.CallExpr); ok {
-				if fn := Callee(info, call); fn != nil && calleeIs(fn, "strings", "Join") {
-					join = call
+	fr := p.Func("private/bufpkg/bufmodule", "getB5DigestForBucketAndDepDigests")
+	if fr == nil || fr.Obj == nil {
+		c.Fail(rule, "getB5DigestForBucketAndDepDigests", token.NoPos, "not found")
+		return
+	}
+	sf := p.SSAFunc(fr.Obj)
+	ok, nJoin, nDerived := false, 0, 0
+	for _, f := range reachSSA(sf, 1) {
+		if f.Pkg != sf.Pkg || len(f.Blocks) == 0 {
+			continue
+		}
+		type sortSite struct {
+			v    ssa.Value
+			call ssa.Instruction
+		}
+		var sorts []sortSite
+		for _, call := range callsIn(f) {
+			o := staticCalleeObj(call.Call)
+			if o == nil || o.Pkg() == nil || len(call.Call.Args) == 0 {
+				continue
+			}
+			if (o.Pkg().Path() == "sort" && o.Name() == "Strings") || (o.Pkg().Path() == "slices" && o.Name() == "Sort") {
+				sorts = append(sorts, sortSite{stripConv(call.Call.Args[0]), call.Instr})
+			}
+		}
+		for _, call := range callsIn(f) {
+			if o := staticCalleeObj(call.Call); o == nil || !calleeIs(o, "strings", "Join") {
+				continue
+			}
+			nJoin++
+			sliceBack(call.Call.Args[0], func(x ssa.Value) bool {
+				sl, isSlice := x.Type().Underlying().(*types.Slice)
+				if !isSlice || sl.Elem().String() != "string" {
+					return true
 				}
-			}
-			return true
-		})
-		// string slices derived from the dependency-digest parameter
-		var derived []types.Object
-		ast.Inspect(fr.Decl.Body, func(n ast.Node) bool {
-			as, ok := n.(*ast.AssignStmt)
-			if !ok || len(as.Rhs) != 1 {
-				return true
-			}
-			call, ok := as.Rhs[0].(*ast.CallExpr)
-			if !ok || len(call.Args) == 0 {
-				return true
-			}
-			if o := identObj(info, call.Args[0]); o != nil {
-				if _, isParam := o.(*types.Var); isParam && o.Pos() < fr.Decl.Body.Pos() {
-					if lo := identObj(info, as.Lhs[0]); lo != nil {
-						if sl, ok := lo.Type().Underlying().(*types.Slice); ok && sl.Elem().String() == "string" {
-							derived = append(derived, lo)
+				fromParam := false
+				sliceBack(x, func(y ssa.Value) bool {
+					if par, isPar := y.(*ssa.Parameter); isPar {
+						if _, isSl := par.Type().Underlying().(*types.Slice); isSl {
+							fromParam = true
 						}
 					}
+					return true
+				})
+				if !fromParam {
+					return true
 				}
-			}
-			return true
-		})
-		ok := join != nil && len(derived) > 0
-		for _, d := range derived {
-			var sorts []ast.Node
-			ast.Inspect(fr.Decl.Body, func(n ast.Node) bool {
-				if call, isCall := n.(*ast.CallExpr); isCall && sortingCallOn(info, call, d) {
-					sorts = append(sorts, call)
+				nDerived++
+				for _, s := range sorts {
+					if s.v == stripConv(x) && instrDominates(s.call, call.Instr) {
+						ok = true
+					}
 				}
 				return true
 			})
-			dom := false
-			for _, s := range sorts {
-				if g.Dominates(s, join) {
-					dom = true
-				}
-			}
-			if !dom {
-				ok = false
-			}
 		}
-		c.Ob(rule, "getB5DigestForBucketAndDepDigests/dep-digests-sorted", fr.Decl.Pos(), ok, true, "the dependency digest strings (%d slice(s) derived from the parameter, i.e. in the caller's listing order) are sorted before strings.Join feeds the hash: %v", len(derived), ok)
-	} else {
-		c.Fail(rule, "getB5DigestForBucketAndDepDigests", token.NoPos, "not found")
 	}
+	c.Ob(rule, "getB5DigestForBucketAndDepDigests/dep-digests-sorted", fr.Decl.Pos(), ok && nJoin > 0, true, "the dependency digest strings (%d []string value(s) derived from a slice parameter, i.e. in the caller's listing order, on the way to %d strings.Join call(s)) are sorted before strings.Join feeds the hash: %v", nDerived, nJoin, ok)
 }
 
 // c08NodeFromObject (NODE-FROM-OBJECT): the digest is "the same for every storage backend" only if a file node is named
